@@ -433,6 +433,7 @@ type Contract struct {
 	Unroll    map[int]int
 	Lets      []LetDef
 	Splits    []Expr
+	ClockInstant bool
 	Storage   string // "" (reliable) | faulty
 	Trusted   bool   // body not verified (assumed contract)
 	NoInline  bool
@@ -725,6 +726,8 @@ func parseContracts(lines []srcLine) *ContractSet {
 					continue
 				}
 				cur.Splits = append(cur.Splits, e)
+			case "clock":
+				cur.ClockInstant = rest == "instantaneous"
 			case "storage":
 				cur.Storage = rest
 			case "trusted":
